@@ -5,5 +5,6 @@ CONSTANTS
   MaxOps = 3
   InitRecomputes = FALSE
   FinalInRoot = FALSE
-INVARIANTS EqualHistoriesEqualRoots InitIdempotent
+  TrustPrevOnEmpty = FALSE
+INVARIANTS EqualHistoriesEqualRoots InitIdempotent ReturnedIsCurrent
 CHECK_DEADLOCK FALSE
